@@ -137,7 +137,17 @@ func verifFP(dst []byte, v reflect.Value, followIface bool, seen map[unsafe.Poin
 		}
 		return dst
 	}
-	return append(dst, 0xf8) // chan, func, unsafe pointer, complex
+	if v.Kind() == reflect.Chan && !v.IsNil() {
+		// a buffered channel is state too (a free list, a queue of deferred work): its queued values
+		// as the channel shims shadow them (sequential driver only; empty otherwise)
+		items := verifChanItems(v.Pointer())
+		dst = binary.LittleEndian.AppendUint32(append(dst, 0xf7), uint32(len(items)))
+		for _, it := range items {
+			dst = verifFP(dst, reflect.ValueOf(it), followIface, seen)
+		}
+		return dst
+	}
+	return append(dst, 0xf8) // nil chan, func, unsafe pointer, complex
 }
 
 // verifUnknownFP fingerprints every field of the struct v whose name is not listed.
